@@ -45,7 +45,7 @@ inline Profile make_profile(const std::string& n) {
     W(O_WATCH, 5); W(O_DESTROY_DW, 4); W(O_UNWATCH, 2); W(O_RECREATE_DW, 2); W(O_DESTROY_MOCK, 1); W(O_RECREATE_MOCK, 1); W(O_SCOPED_DW, 2);
     p.p_seq = 85; p.p_seq2 = 35; p.concentrate = true; p.p_forbid = 2; p.p_inf = 30; p.p_watch_seq = 85; p.p_with = 10; p.p_fx = 10;
   } else if (n == "clauses") {
-    W(O_CREATE, 26); W(O_RELEASE, 8); W(O_CALL, 62); W(O_PUSH_TRACER, 2); W(O_POP_TRACER, 2);
+    W(O_CREATE, 26); W(O_RELEASE, 8); W(O_CALL, 62); W(O_PUSH_TRACER, 2); W(O_POP_TRACER, 1); W(O_DROP_TRACER, 1);
     p.p_with = 60; p.p_fx = 65; p.p_throw_term = 30; p.concentrate = true; p.p_inf = 40; p.p_seq = 10;
   } else if (n == "death") {
     // up to three requirements per object alive at once
@@ -55,16 +55,16 @@ inline Profile make_profile(const std::string& n) {
   } else if (n == "teardown") {
     W(O_CREATE, 20); W(O_RELEASE, 9); W(O_CALL, 24); W(O_MOVE_MOCK, 6); W(O_DESTROY_MOCK, 6); W(O_RECREATE_MOCK, 5);
     W(O_DESTROY_SEQ, 5); W(O_MOVE_SEQ, 3); W(O_RECREATE_SEQ, 4); W(O_WATCH, 5); W(O_UNWATCH, 3); W(O_DESTROY_DW, 4); W(O_COPY_DW, 1);
-    W(O_MOVE_DW, 1); W(O_ASSIGN_DW, 1); W(O_RECREATE_DW, 3); W(O_PUSH_TRACER, 2); W(O_POP_TRACER, 2); W(O_DESTROY_HUSKS, 1); W(O_SCOPED_DW, 2);
+    W(O_MOVE_DW, 1); W(O_ASSIGN_DW, 1); W(O_RECREATE_DW, 3); W(O_PUSH_TRACER, 2); W(O_POP_TRACER, 1); W(O_DROP_TRACER, 1); W(O_DESTROY_HUSKS, 1); W(O_SCOPED_DW, 2);
     p.p_seq = 55; p.p_watch_seq = 50; p.p_inf = 30; p.p_lit = 10;
   } else if (n == "trace") {
-    W(O_PUSH_TRACER, 9); W(O_POP_TRACER, 7); W(O_CREATE, 22); W(O_CALL, 54); W(O_RELEASE, 6); W(O_SWAP_REPORTER, 1);
+    W(O_PUSH_TRACER, 9); W(O_POP_TRACER, 4); W(O_DROP_TRACER, 3); W(O_CREATE, 22); W(O_CALL, 54); W(O_RELEASE, 6); W(O_SWAP_REPORTER, 1);
     p.p_fx = 45; p.p_throw_term = 35; p.p_inf = 50; p.concentrate = true; p.p_seq = 10;
   } else {  // all
     p.name = "all";
     W(O_CREATE, 22); W(O_RELEASE, 8); W(O_CALL, 40); W(O_MOVE_MOCK, 2); W(O_DESTROY_MOCK, 2); W(O_RECREATE_MOCK, 2);
     W(O_DESTROY_SEQ, 2); W(O_MOVE_SEQ, 1); W(O_RECREATE_SEQ, 2); W(O_WATCH, 4); W(O_UNWATCH, 2); W(O_DESTROY_DW, 3); W(O_COPY_DW, 1);
-    W(O_MOVE_DW, 1); W(O_ASSIGN_DW, 1); W(O_RECREATE_DW, 2); W(O_PUSH_TRACER, 2); W(O_POP_TRACER, 1); W(O_SWAP_REPORTER, 1); W(O_DESTROY_HUSKS, 1); W(O_SCOPED, 3);
+    W(O_MOVE_DW, 1); W(O_ASSIGN_DW, 1); W(O_RECREATE_DW, 2); W(O_PUSH_TRACER, 2); W(O_POP_TRACER, 1); W(O_DROP_TRACER, 1); W(O_SWAP_REPORTER, 1); W(O_DESTROY_HUSKS, 1); W(O_SCOPED, 3);
     p.p_seq = 40; p.p_watch_seq = 40; p.p_lit = 12; p.p_with = 30; p.p_fx = 30;
   }
   return p;
@@ -160,6 +160,7 @@ inline Op decode(const uint8_t* b, const Profile& p) {
     case O_ASSIGN_DW: o.a = {static_cast<int>(b[2] % NDW), static_cast<int>(b[3] % NDW), b[4] % 2}; break;
     case O_SWAP_REPORTER: o.a = {b[2] % 2}; break;
     case O_PUSH_TRACER: o.a = {b[2] % 3 == 0 ? 1 : 0}; break;
+    case O_DROP_TRACER: o.a = {b[2] % MAXTR}; break;
     case O_SCOPED_DW: o.a = {static_cast<int>(b[2] % NDW), (b[3] % 100) < p.p_watch_seq ? 1 : 0, static_cast<int>(b[4] % NSEQ), b[5] % 3 != 0 ? 1 : 0}; break;
     case O_SCOPED: {
       int ob = p.concentrate ? (b[2] % 8 < 6 ? 0 : 1) : b[2] % NOBJ;
